@@ -372,6 +372,29 @@ def optional_only_schemas():
     return res
 
 
+def short_run_schemas():
+    """an element with minOccurs >= 2 and a huge / unbounded maxOccurs, reached through a sequence or a group and followed by
+    a tail: documents with a run that is too short but not empty (the mismatch branch of the element loop)"""
+    def el(name, mn=1, mx=1):
+        return dict(k="elem", name=name, type="string", min=mn, max=mx, nillable=False)
+    out = []
+    for mn, mx in ((2, None), (3, 100000000), (2, 4)):
+        seq = dict(k="seq", min=1, max=1, items=[el("a", mn, mx), el("tail", 0, 1)])
+        out.append(("short-run-seq", dict(qualified=True, attr_qualified=False, types={"T1": dict(kind="complex", content=seq, attrs=[], base=None)},
+                                          groups={}, root=("root", "T1"))))
+        g = dict(k="seq", min=1, max=1, items=[el("a", mn, mx), el("b", 0, 1)])
+        content = dict(k="seq", min=1, max=1, items=[dict(k="group", ref="g", min=1, max=1), el("tail", 0, 1)])
+        out.append(("short-run-group", dict(qualified=True, attr_qualified=False, types={"T1": dict(kind="complex", content=content, attrs=[], base=None)},
+                                            groups={"g": g}, root=("root", "T1"))))
+    return out
+
+
+def wildcard_schema(mx):
+    """(a, any{0,mx}): a repeating wildcard; its children may be declared global elements (the root itself) that decode to None"""
+    content = dict(k="seq", min=1, max=1, items=[dict(k="elem", name="a", type="string", min=1, max=1, nillable=False), dict(k="any", min=0, max=mx)])
+    return dict(qualified=True, attr_qualified=False, types={"T1": dict(kind="complex", content=content, attrs=[], base=None)}, groups={}, root=("root", "T1"))
+
+
 def validator(xsd_text):
     return etree.XMLSchema(etree.fromstring(xsd_text.encode()))
 
